@@ -2551,7 +2551,10 @@ impl Database {
             Expr::UnaryOp { op, expr: inner } => {
                 let inner_val = self.eval_expr_with_row(inner, row, column_map)?;
                 match (op, inner_val) {
-                    (UnaryOperator::Minus, OwnedValue::Int(i)) => Ok(OwnedValue::Int(-i)),
+                    (UnaryOperator::Minus, OwnedValue::Int(i)) => i
+                        .checked_neg()
+                        .map(OwnedValue::Int)
+                        .ok_or_else(|| eyre::eyre!("integer overflow")),
                     (UnaryOperator::Minus, OwnedValue::Float(f)) => Ok(OwnedValue::Float(-f)),
                     (UnaryOperator::Plus, val) => Ok(val),
                     (UnaryOperator::Not, OwnedValue::Bool(b)) => Ok(OwnedValue::Bool(!b)),
